@@ -25,9 +25,17 @@ def Ev.accepts (e : Ev) (cert : CertId) : Bool :=
   | .pkt _ _ rd co _ _ => Spec.Handshake.accepts rd co cert
   | _ => false
 
-/-- the certificate the Machine holds was accepted in some step of the history. -/
+/-- `PeerStatic()` observed in the step, if its read succeeded. -/
+def Ev.peerStatic (e : Ev) : Option Bytes :=
+  match e with
+  | .pkt _ _ rd _ _ _ => readStatic rd
+  | _ => none
+
+/-- the certificate the Machine holds was accepted in some step of the history, and the public key
+the Machine recorded for it is the `PeerStatic()` of that step. -/
 def CertInv (s : St) (hist : List Ev) : Prop :=
-  s.remoteCertSet = true → ∃ cert, s.remoteCert = some cert ∧ ∃ e ∈ hist, e.accepts cert = true
+  s.remoteCertSet = true → ∃ cert, s.remoteCert = some cert ∧
+    ∃ e ∈ hist, e.accepts cert = true ∧ e.peerStatic = some s.remoteKey
 
 theorem certInv_step (c : Cfg) (s : St) (hist : List Ev) (e : Ev) (h : CertInv s hist) :
     CertInv (stepEv c s e).1 (hist ++ [e]) := by
@@ -37,15 +45,24 @@ theorem certInv_step (c : Cfg) (s : St) (hist : List Ev) (e : Ev) (h : CertInv s
     have he := initiate_certEq c s now wr
     simp only [stepEv] at hset ⊢
     rw [he.1] at hset
-    obtain ⟨cert, h1, e', h2, h3⟩ := h hset
-    exact ⟨cert, by rw [he.2]; exact h1, e', by simp [h2], h3⟩
+    obtain ⟨cert, h1, e', h2, h3, h4⟩ := h hset
+    have hc := congrArg Prod.fst he.2
+    have hk := congrArg Prod.snd he.2
+    simp only at hc hk
+    exact ⟨cert, by rw [hc]; exact h1, e', by simp [h2], h3, by rw [hk]; exact h4⟩
   | pkt len st rd co now wr =>
     simp only [stepEv, processPacket] at hset ⊢
-    rcases pp_certStep true c s len st rd co now wr with he | ⟨cert, ha, hc⟩
+    rcases pp_certStep true c s len st rd co now wr with he | ⟨cert, ps, ha, hps, hc⟩
     · rw [he.1] at hset
-      obtain ⟨cert, h1, e', h2, h3⟩ := h hset
-      exact ⟨cert, by rw [he.2]; exact h1, e', by simp [h2], h3⟩
-    · exact ⟨cert, hc, .pkt len st rd co now wr, by simp, by simp [Ev.accepts, ha]⟩
+      obtain ⟨cert, h1, e', h2, h3, h4⟩ := h hset
+      have hc := congrArg Prod.fst he.2
+      have hk := congrArg Prod.snd he.2
+      simp only at hc hk
+      exact ⟨cert, by rw [hc]; exact h1, e', by simp [h2], h3, by rw [hk]; exact h4⟩
+    · have hc1 := congrArg Prod.fst hc
+      have hk1 := congrArg Prod.snd hc
+      simp only at hc1 hk1
+      exact ⟨cert, hc1, .pkt len st rd co now wr, by simp, by simp [Ev.accepts, ha], by simp [Ev.peerStatic, hps, hk1]⟩
 
 theorem certInv_run (c : Cfg) (evs : List Ev) : ∀ (s : St) (hist : List Ev), CertInv s hist →
     CertInv (runState c s evs) (hist ++ evs) := by
